@@ -154,6 +154,38 @@ def scenarios(v):
             for how in ("add", "append", "insert", "parent", "children"):
                 add("put_unknown:%s:%s:%s" % (pk, dt, how), put_unknown(pk, dt, how))
 
+    # C3. a NAMED child that belongs to another structure (same or other base datatype) handed to a parent: STRICT lets no
+    #     foreign child in ("foreign" is decided from the tables: the name is not among the parent's children)
+    def put_foreign(pcls, pname, ccls, cname, how):
+        def fn(lvl):
+            p = pcls(pname, version=v, validation_level=lvl)
+            if how == "setattr":
+                setattr(p, cname.lower(), "x")
+                return p
+            ch = ccls(cname, version=v, validation_level=lvl)
+            try:
+                ch.value = "x"
+            except Exception:
+                pass
+            if how == "add":
+                p.add(ch)
+            elif how == "append":
+                p.children.append(ch)
+            elif how == "insert":
+                p.children.insert(0, ch)
+            elif how == "parent":
+                ch.parent = p
+            elif how == "children":
+                p.children = [ch]
+            return p
+        return fn
+    for (pcls, pname, ccls, cname) in ((Component, "CX_1", SubComponent, "FN_1"), (Component, "CX_1", SubComponent, "HD_1"),
+                                       (Component, "CX_4", SubComponent, "FN_1"), (Field, "PID_3", Component, "XPN_1"),
+                                       (Field, "PID_8", Component, "CX_1"), (Segment, "PID", Field, "NK1_2"),
+                                       (Component, "XPN_1", SubComponent, "HD_1")):
+        for how in ("add", "append", "insert", "parent", "children", "setattr"):
+            add("put_foreign:%s:%s:%s" % (pname, cname, how), put_foreign(pcls, pname, ccls, cname, how), ("", "", True))
+
     # D. whole child lists
     def child_list(kind):
         def fn(lvl):
@@ -203,7 +235,7 @@ def lockstep(args):
                 res[name] = (exc_name(ex), [], [], [])
         out.append({"what": "call:" + label.split(":")[0], "conc": v, "out_s": res["s"][0], "out_t": res["t"][0], "enc_s": res["s"][1],
                     "enc_t": res["t"][1], "rep_s": res["s"][2], "rep_t": res["t"][2], "kinds_s": res["s"][3], "step": 0,
-                    "detail": [label], "dt_given": dts[0], "dt_official": dts[1]})
+                    "detail": [label], "dt_given": dts[0], "dt_official": dts[1], "foreign": bool(len(dts) > 2 and dts[2])})
     return out
 
 
